@@ -70,33 +70,41 @@ CHECKS["C08"] = dict(
    note="Trusted: Coq kernel; Model/Rewrite.v (hand-written) tied by result comparison; object identity = structural equality; "
         "annotations not modelled. Known finding: BV.identical compares VSA abstractions. Two defects repaired (ite_dict key order, burrow_ite).")
 CHECKS["C21"] = dict(
-   text="Machine-checked proof (Coq), every width and every operand: strided-interval add is sound (C21_add); sub and neg are sound when "
-        "the subtracted interval's upper bound is one of its members (C21_sub, C21_neg) and NOT otherwise (C21_sub_unaligned_refuted, "
-        "witness {0} - 2[0,1] at 2 bits); normalisation keeps every member (C21_normalize); zero_extend is sound for an interval "
-        "that does not wrap around (C21_zext) and not for one that does (C21_zext_wrapping_refuted); a definite answer of the unsigned "
+   text="Machine-checked proof (Coq), every width and every operand: strided-interval add is sound (C21_add); sub and neg, as repaired "
+        "(the subtrahend's upper bound is first replaced by its last member), are sound for every subtrahend (C21_sub, C21_neg; a stride-0 "
+        "operand must be a single value), while the pinned bounds rule without that step is refuted (C21_sub_unaligned_refuted, "
+        "witness {0} - 2[0,1] at 2 bits); normalisation keeps every member (C21_normalize); zero_extend as repaired (a wrapping interval "
+        "is split at the south pole and the relabelled pieces joined) is sound for every interval (C21_zext), relabelling alone -- the "
+        "pinned rule -- is not (C21_zext_wrapping_refuted); bitwise_not as repaired (complement from the last member of every piece) is "
+        "sound for every interval (C21_not); a definite answer of the unsigned "
         "comparisons ULT/ULE/UGT/UGE (_ssplit, _unsigned_bounds, the all-pairs decision) holds for every pair of members (C21_ult, C21_ule, "
         "C21_ugt, C21_uge), and they answer whenever a wrapping operand has a positive stride (C21_ucmp_total); the same for the signed "
         "comparisons SLT/SLE/SGT/SGE over the repaired _signed_bounds (_ssplit, then _nsplit of every piece, memberless pieces skipped: "
         "C21_slt, C21_sle, C21_sgt, C21_sge), and every member lies between one pair of _unsigned_bounds / _signed_bounds "
         "(C21_unsigned_bounds, C21_signed_bounds). The model's record-level operations call "
         "the integer helpers re-translated from strided_interval.py on every run and are compared result-for-result with the real code. "
-        "All other transfer functions (mul, div, mod, bitwise, shifts, sign extension, extraction, concat, eq) are NOT modelled: "
+        "All other transfer functions (mul, div, mod, and/or/xor, shifts, sign extension, extraction, concat, eq) are NOT modelled: "
         "they are swept directly -- exhaustively at widths 1-2 (1-3 in the thorough tier), sampled above -- and are unsound on the "
-        "pinned tree in 19 operations; those are known findings identified by (operation, input). Three defects of the bounds functions were repaired.",
-   design="5/C21", technique="Coq soundness proofs for add/sub/neg/zero_extend/the eight order comparisons over translated helpers; exhaustive small-width sweep of the real code for the rest",
-   note="Trusted: Coq kernel; tools/py2coq.py; Model/SI.v hand-written; sweep oracle = member enumeration from the definition. "
-        "Most of this property is decided by testing, not proof; the known-findings list is large (known/C21.txt.gz).")
+        "pinned tree in 14 operations; those are known findings identified by (operation, input). Eight defects (sub, bitwise_not, "
+        "zero_extend, n_values, the two bounds functions, eval of a singleton, __neg__) were repaired.",
+   design="5/C21", technique="Coq soundness proofs for add/sub/neg/not/zero_extend/the eight order comparisons over translated helpers; exhaustive small-width sweep of the real code for the rest",
+   note="Trusted: Coq kernel; tools/py2coq.py; Model/SI.v, Model/SICmp.v, Model/SINot.v, Model/SIZextM.v, Model/SIUnion.v hand-written; sweep oracle = member enumeration from the definition. "
+        "Much of this property is decided by testing, not proof; the known-findings list is large (known/C21.txt.gz).")
 CHECKS["C22"] = dict(
    text="Machine-checked proof (Coq): cardinality equals the number of members for every width (C22_cardinality), the executable member "
         "list is the member set (C22_members), and the union of two intervals (union / _union / least_upper_bound of two = pseudo_join "
         "with all its cases: containment either way, TOP operands, covering the circle, overlap, disjoint with the choice of the smaller "
         "join) contains every member of both operands for every width and all operands (C22_union); the union model is compared "
-        "result-for-result with the real code on ~10000 pairs per run. least_upper_bound of three or more, intersection, widen, eval, "
-        "min, max and solution are NOT modelled: they are swept directly on the real code (all intervals and pairs of width 1-2, 1-3 thorough, samples above); "
-        "widen, intersection, solution, signed eval and min/max on intervals with a non-member upper bound fail on the pinned tree and are "
-        "known findings identified by (operation, input).",
-   design="5/C22", technique="Coq proofs of cardinality and of the soundness of the two-interval union; correspondence by extraction; exhaustive small-width sweep of the real joins/meets/queries",
-   note="Trusted: Coq kernel; Model/SI.v, Model/SIUnion.v; sweep oracle = member enumeration from the definition.")
+        "result-for-result with the real code on ~10000 pairs per run. The queries that read _unsigned_bounds/_signed_bounds are modelled "
+        "(Model/SIQuery.v) and compared result-for-result (max, min, eval(n) in both signednesses on ~5800 intervals per run): unsigned min "
+        "is exactly the least member (C22_min_exact), unsigned eval lists members only (C22_eval_members), max is an upper and min a lower "
+        "bound of every member in either signedness (C22_max_upper_partial, C22_min_lower_partial -- partial because max is not always a "
+        "member: C22_max_not_member_refuted, a known finding). least_upper_bound of three or more, intersection, widen and solution are NOT "
+        "modelled: they are swept directly on the real code (all intervals and pairs of width 1-2, 1-3 thorough, samples above); "
+        "widen, intersection, solution and min/max on intervals with a non-member upper bound fail on the pinned tree and are "
+        "known findings identified by (operation, input); three defects of eval/min/the bounds functions were repaired.",
+   design="5/C22", technique="Coq proofs of cardinality, the two-interval union and the bounds-reading queries; correspondence by extraction; exhaustive small-width sweep of the real joins/meets/queries",
+   note="Trusted: Coq kernel; Model/SI.v, Model/SIUnion.v, Model/SICmp.v, Model/SIQuery.v; sweep oracle = member enumeration from the definition.")
 
 CHECKS["C23"] = dict(
    text="Machine-checked proof (Coq), generic in the element domain: an operation applied to every (pair of) member(s) of sets of abstract "
